@@ -365,6 +365,8 @@ pub fn run_case_plan(run: &mut Run, rng: &mut Rng, cfg: &Cfg, iters: usize, faul
     // C01 ground truth of the round in progress: every send_probe call with its outcome, and the probes answered
     let mut round_log: Vec<(u16, u8, char)> = vec![];
     let mut round_answered: Vec<u16> = vec![];
+    // … and the response each of them was answered with (the first genuine one)
+    let mut round_answered_resp: Vec<(u16, Resp)> = vec![];
     // C10: no round can report a path length beyond the highest ttl ever probed
     let mut max_ttl_ever_sent: u8 = 0;
     let unit = [cfg.max_round / 6 + 1, cfg.max_round / 2 + 1, 1, cfg.grace, cfg.grace + 1, cfg.min_round, cfg.min_round + 1, cfg.max_round, cfg.max_round + 1, 0, 10_000_000];
@@ -376,10 +378,14 @@ pub fn run_case_plan(run: &mut Run, rng: &mut Rng, cfg: &Cfg, iters: usize, faul
         // aimed at a slot that still holds an Awaited probe of an earlier round (junk kind 7)
         let mut force_none = false;
         let mut force_stale = false;
+        let mut force_genuine = false;
+        let mut force_fatal = false;
         if let Some((fs, _)) = &mut forced {
             if fs.contains(&'N') { force_none = true; }
             if fs.contains(&'S') { force_stale = true; }
-            fs.retain(|c| *c != 'N' && *c != 'S');
+            if fs.contains(&'G') { force_genuine = true; }
+            if fs.contains(&'X') { force_fatal = true; }
+            fs.retain(|c| !matches!(*c, 'N' | 'S' | 'G' | 'X'));
         }
         let sends: Vec<char> = if let Some((fs, _)) = &forced { fs.clone() } else if fault && rng.chance(1, 8) {
             match cfg.proto {
@@ -390,11 +396,11 @@ pub fn run_case_plan(run: &mut Run, rng: &mut Rng, cfg: &Cfg, iters: usize, faul
         let dt = if let Some((_, fdt)) = &forced { *fdt } else if wrap_soak { cfg.max_round + 1 } else { *rng.pick(&unit) };
         let now_after = clock::now_ns() + dt;
         let aw = awaited(&st);
-        let choice = if force_stale { 99 } else { rng.below(100) };
+        let choice = if force_stale { 99 } else if force_genuine { 50 } else { rng.below(100) };
         let mut genuine_for: Option<Probe> = None;
-        let recv = if force_none {
+        let recv = if force_none || (force_genuine && aw.is_empty()) {
             Recv::None
-        } else if fault && rng.chance(1, 60) {
+        } else if force_fatal || (fault && rng.chance(1, 60)) {
             Recv::Fatal
         } else if choice < 30 || (aw.is_empty() && choice < 70) {
             Recv::None
@@ -535,6 +541,7 @@ pub fn run_case_plan(run: &mut Run, rng: &mut Rng, cfg: &Cfg, iters: usize, faul
                     if !done { run.fail("c01-genuine-not-completed", ctx()); }
                     run.count("genuine");
                     round_answered.push(p.sequence.0);
+                    if let Some(r) = answered.last() { round_answered_resp.push((p.sequence.0, r.clone())); }
                     mon.last_accept_time = Some(now_after);
                     if p.ttl.0 >= path_len { mon.target_accepted_in_round = true; }
                     if p.ttl.0 == path_len && !mon.established { mon.established = true; mon.established_round = before_round; }
@@ -559,7 +566,22 @@ pub fn run_case_plan(run: &mut Run, rng: &mut Rng, cfg: &Cfg, iters: usize, faul
                                 let ok = match (ps, o) {
                                     (ProbeStatus::Skipped, 'a') => true,
                                     (ProbeStatus::Failed(f), 'f') => f.sequence.0 == *seq && f.ttl.0 == *ttl,
-                                    (ProbeStatus::Complete(c), 'o') => c.sequence.0 == *seq && c.ttl.0 == *ttl && round_answered.contains(seq),
+                                    (ProbeStatus::Complete(c), 'o') => {
+                                        // the entry carries the data of the first genuine response to that probe
+                                        if let Some((_, r)) = round_answered_resp.iter().find(|(q, _)| q == seq) {
+                                            let tos = match &r.proto { PResp::Icmp { tos, .. } | PResp::Udp { tos, .. } | PResp::Tcp { tos, .. } => *tos };
+                                            if id_of(c.host) != r.addr || clock::ns_of(c.received) != r.recv || c.tos.map(|t| t.0) != tos {
+                                                run.fail("c01-response-data", format!("{} (probe seq {seq}: reported {} but the response was from {} at {} tos {:?})", ctx(), show_slot(ps), r.addr, r.recv, tos));
+                                            }
+                                            if let (PResp::Udp { exp, act, .. }, Some(e), Some(a)) = (&r.proto, c.expected_udp_checksum, c.actual_udp_checksum) {
+                                                if e.0 != *exp || a.0 != *act {
+                                                    run.fail("c19-checksums-not-as-received", format!("{} (probe seq {seq}: response carried expected {exp} / quoted {act}, reported {} / {})", ctx(), e.0, a.0));
+                                                    run.fail("c01-response-data", format!("{} (probe seq {seq}: checksums expected {exp} / quoted {act} reported as {} / {})", ctx(), e.0, a.0));
+                                                }
+                                            }
+                                        }
+                                        c.sequence.0 == *seq && c.ttl.0 == *ttl && round_answered.contains(seq)
+                                    }
                                     (ProbeStatus::Awaited(a), 'o') => a.sequence.0 == *seq && a.ttl.0 == *ttl && !round_answered.contains(seq),
                                     _ => false,
                                 };
@@ -570,6 +592,7 @@ pub fn run_case_plan(run: &mut Run, rng: &mut Rng, cfg: &Cfg, iters: usize, faul
                     }
                     round_log.clear();
                     round_answered.clear();
+                    round_answered_resp.clear();
                     // C10: the reported path length never exceeds the highest ttl probed so far (no never-probed trailing hop)
                     if let Some(l) = pr.split('/').nth(1).and_then(|x| x.parse::<u16>().ok()) {
                         if l > u16::from(max_ttl_ever_sent) { run.fail("c10-length-beyond-probed", format!("{} (published {}, highest ttl ever probed {max_ttl_ever_sent})", ctx(), &pr[..pr.find('[').unwrap_or(6)])); }
@@ -640,7 +663,7 @@ pub fn run(rng: &mut Rng, thorough: bool, corpus: &[String]) -> Run {
     let mut run = Run::new();
     let _ = corpus;
     trace_ids(&mut run, rng, thorough);
-    let cases = if thorough { 40_000 } else { 1500 };
+    let cases = if thorough { 120_000 } else { 1500 };
     for i in 0..cases {
         let mut cfg = gen_cfg(rng, thorough);
         // most cases: builder-accepted configurations; a few outside (the model must agree on panics too)
@@ -717,6 +740,36 @@ pub fn run(rng: &mut Rng, thorough: bool, corpus: &[String]) -> Run {
         let n = plan.len() + 40;
         run.count("directed:wrap-stale");
         run_case_plan(&mut run, rng, &cfg, n, false, false, plan);
+    }
+    // C09, bounded-exhaustive: every sequence of (send outcome, receive outcome, wait) of length 4 for small
+    // configurations (thorough tier): 4 send outcomes x {no response, genuine response, fatal} x {no wait, past
+    // the round limit}
+    if thorough {
+        for proto in ['i', 't', 'u'] {
+            let send_opts: Vec<Vec<char>> = if proto == 't' { vec![vec!['o'], vec!['f'], vec!['a', 'o'], vec!['x']] } else { vec![vec!['o'], vec!['f'], vec!['a'], vec!['x']] };
+            let recv_opts = ['N', 'G', 'X'];
+            let dts = [0u64, 1001];
+            let per = send_opts.len() * recv_opts.len() * dts.len();
+            let len = 4u32;
+            for code in 0..per.pow(len) {
+                let mut cfg = gen_cfg(rng, false);
+                cfg.proto = proto; cfg.v6 = false; cfg.strat = 'c';
+                cfg.pd = match proto { 'i' => Pd::None, 't' => Pd::Src(5000), _ => Pd::Src(5000) };
+                cfg.first = 1; cfg.max = 3; cfg.inflight = 24; cfg.max_rounds = Some(2);
+                cfg.min_round = 0; cfg.max_round = 1000; cfg.grace = 0; cfg.initial = 33434;
+                if !cfg.builder_ok() { continue; }
+                let mut plan = VecDeque::new();
+                let mut c = code;
+                for _ in 0..len {
+                    let k = c % per; c /= per;
+                    let mut v = send_opts[k % send_opts.len()].clone();
+                    v.push(recv_opts[(k / send_opts.len()) % recv_opts.len()]);
+                    plan.push_back((v, dts[k / (send_opts.len() * recv_opts.len())]));
+                }
+                run.count("exhaustive:len4");
+                run_case_plan(&mut run, rng, &cfg, len as usize, false, false, plan);
+            }
+        }
     }
     // sequence wrap-around soaks: many short rounds from boundary initial sequences
     let soaks = if thorough { 60 } else { 8 };
